@@ -50,6 +50,16 @@ type finding struct {
 
 var verifDir = "/verif"
 
+// altSuffix separates the outputs of a run against a scratch copy of the
+// repository (VERIF_REPO, used only to validate the monitors against
+// seeded changes) from those of the registered checks.
+func altSuffix() string {
+	if alt := os.Getenv("VERIF_REPO"); alt != "" && alt != "/repo" {
+		return "-alt"
+	}
+	return ""
+}
+
 func main() {
 	if wd, err := os.Getwd(); err == nil {
 		if _, err := os.Stat(filepath.Join(wd, "MANIFEST.json")); err == nil {
@@ -293,7 +303,7 @@ func cmdRun(args []string) int {
 		*tier = "quick"
 	}
 	t0 := time.Now()
-	rundir := filepath.Join(verifDir, ".run", id+"-"+*tier)
+	rundir := filepath.Join(verifDir, ".run", id+"-"+*tier+altSuffix())
 	_ = os.RemoveAll(rundir)
 	if err := os.MkdirAll(rundir, 0o755); err != nil {
 		fmt.Fprintln(os.Stderr, err)
@@ -302,7 +312,7 @@ func cmdRun(args []string) int {
 	builds := p.builds(*tier)
 	bins := map[string]string{}
 	for _, b := range builds {
-		bin, err := buildBinary(b.flavour, filepath.Join(verifDir, ".build", id))
+		bin, err := buildBinary(b.flavour, filepath.Join(verifDir, ".build", id+altSuffix()))
 		if err != nil {
 			fmt.Fprintln(os.Stderr, err)
 			fmt.Printf("INCONCLUSIVE property=%s reason=build-failed\n", id)
@@ -339,7 +349,7 @@ func cmdRun(args []string) int {
 			}
 		}
 		replayN++
-		path := filepath.Join(verifDir, "replays", fmt.Sprintf("%s-%d-%d.json", id, seed, replayN))
+		path := filepath.Join(verifDir, "replays"+altSuffix(), fmt.Sprintf("%s-%d-%d.json", id, seed, replayN))
 		_ = os.MkdirAll(filepath.Dir(path), 0o755)
 		doc := map[string]any{"property": id, "tier": *tier, "seed": seed, "build": rec.Build, "signature": rec.Sig,
 			"case_idx": rec.CaseIdx, "case": rec.Case, "detail": rec.Detail, "witness": rec.Witness,
@@ -458,9 +468,9 @@ func cmdRun(args []string) int {
 		"property_id": id, "tier": *tier, "seed": seed, "level": p.level, "coverage": cov,
 		"assumptions": p.assumptions, "wall_s": round1(wall), "violations": len(viols),
 	}
-	_ = os.MkdirAll(filepath.Join(verifDir, "evidence"), 0o755)
+	_ = os.MkdirAll(filepath.Join(verifDir, "evidence"+altSuffix()), 0o755)
 	eb, _ := json.MarshalIndent(ev, "", " ")
-	_ = os.WriteFile(filepath.Join(verifDir, "evidence", id+".json"), append(eb, '\n'), 0o644)
+	_ = os.WriteFile(filepath.Join(verifDir, "evidence"+altSuffix(), id+".json"), append(eb, '\n'), 0o644)
 
 	// verdict lines
 	for _, k := range known {
